@@ -377,36 +377,57 @@ func runC04(c *Ctx) {
 		r.Check(seen && g, "R04.4", sqlPkgRel+".(*Persister).whereQuery", "query field "+f, "",
 			"bound under its non-nil guard", "the query field "+f+" has no guarded predicate: a query on it matches rows regardless of it")
 	}
-	// the Subject field: whereQuery calls whereSubject under `s != nil`
+	// the Subject field: on every path through whereQuery that ends in success, either the
+	// subject predicate was added (whereSubject called) or a branch was taken on which the
+	// query's Subject is nil - whatever the form of the test (guard, early return, else)
 	subjOK := false
-	if fd := core.FuncDecl(m.Pkg, "Persister.whereQuery"); fd != nil {
-		ast.Inspect(fd.Body, func(n ast.Node) bool {
-			ifs, ok := n.(*ast.IfStmt)
+	if fn := p.Func("(*" + sqlPkgRel + ".Persister).whereQuery"); fn != nil && fn.Blocks != nil {
+		isSubjectField := func(v ssa.Value) bool {
+			u, ok := core.ValueOrigin(v).(*ssa.UnOp)
+			if !ok || u.Op != token.MUL {
+				return false
+			}
+			fa, ok := u.X.(*ssa.FieldAddr)
+			return ok && fieldVarOf(fa) != nil && fieldVarOf(fa).Name() == "Subject"
+		}
+		nilEdge := map[[2]*ssa.BasicBlock]bool{}
+		for _, b := range fn.Blocks {
+			if len(b.Instrs) == 0 {
+				continue
+			}
+			ifi, ok := b.Instrs[len(b.Instrs)-1].(*ssa.If)
 			if !ok {
-				return true
+				continue
 			}
-			op, _, y, isCmp := cmpParts(info, ifs.Cond)
-			if !isCmp || !isNilExpr(info, y) || (op != token.NEQ && op != token.EQL) {
-				return true
-			}
-			// the branch on which the subject is not nil
-			var side ast.Node = ifs.Body
-			if op == token.EQL {
-				side = ifs.Else
-			}
-			if side == nil {
-				return true
-			}
-			ast.Inspect(side, func(n2 ast.Node) bool {
-				if c2, ok := n2.(*ast.CallExpr); ok {
-					if sel, ok := c2.Fun.(*ast.SelectorExpr); ok && sel.Sel.Name == "whereSubject" {
-						subjOK = true
-					}
+			for k := 0; k < 2; k++ {
+				op, x, y, ok := core.Cond{V: ifi.Cond, True: k == 0, At: b}.Holds()
+				if ok && op == token.EQL && core.IsNilConst(y) && isSubjectField(x) {
+					nilEdge[[2]*ssa.BasicBlock{b, b.Succs[k]}] = true
 				}
-				return true
-			})
-			return true
-		})
+			}
+		}
+		nCalls := 0
+		res := core.PathCount(fn, func(ins ssa.Instruction) int {
+			if c, ok := ins.(ssa.CallInstruction); ok {
+				if sc := c.Common().StaticCallee(); sc != nil && sc.Name() == "whereSubject" {
+					nCalls++
+					return 1
+				}
+			}
+			return 0
+		}, nil, func(from, to *ssa.BasicBlock) bool { return nilEdge[[2]*ssa.BasicBlock{from, to}] })
+		subjOK = nCalls > 0
+		for ret, iv := range res {
+			success := false
+			for _, rv := range ret.Results {
+				if core.IsNilConst(rv) {
+					success = true
+				}
+			}
+			if success && iv.Lo < 1 {
+				subjOK = false
+			}
+		}
 	}
 	r.Check(subjOK, "R04.4", sqlPkgRel+".(*Persister).whereQuery", "query field Subject", "",
 		"the subject predicate is added when a subject is given", "whereQuery does not add the subject predicate for a query with a subject")
@@ -447,6 +468,7 @@ func r046(c *Ctx) {
 		}
 	}
 	served := p.KG().ReachLive(roots, nil)
+	judgedIn := map[*ssa.Function]bool{}
 	for _, fn := range p.KetoFuncs("internal/relationtuple") {
 		if !served.Has(fn) {
 			continue
@@ -467,6 +489,7 @@ func r046(c *Ctx) {
 				return
 			}
 			n++
+			judgedIn[fn] = true
 			okAll := true
 			for _, a := range ci.Common().Args {
 				if _, isSlice := a.Type().Underlying().(*types.Slice); !isSlice {
@@ -481,8 +504,24 @@ func r046(c *Ctx) {
 				"a write handler passes tuples to the storage manager that did not come out of Mapper().FromTuple (namespace and subject validation skipped)")
 		})
 	}
-	if n < 3 {
-		r.Undecide("R04.6", "", "write handler storage calls", "", fmt.Sprintf("%d found, floor 3", n))
+	// floor: every write entry reaches a storage call judged above (in its own body or in a
+	// helper the handlers share), and there are at least three write entries
+	nEntries := 0
+	for _, root := range roots {
+		nEntries++
+		reach := p.KG().ReachLive([]*ssa.Function{root}, nil)
+		hit := false
+		for fn := range judgedIn {
+			if reach.Has(fn) {
+				hit = true
+			}
+		}
+		if !hit {
+			r.Undecide("R04.6", core.FuncName(root), "write entry reaches the storage manager", p.Pos(root.Pos()), "no call of the storage manager's write methods was recognised on the paths of this write entry")
+		}
+	}
+	if n < 1 || nEntries < 3 {
+		r.Undecide("R04.6", "", "write handler storage calls", "", fmt.Sprintf("%d storage calls in %d write entries (floor 1 and 3)", n, nEntries))
 	}
 	// inside FromTuple
 	ft := p.Func("(*internal/relationtuple.Mapper).FromTuple")
